@@ -94,9 +94,9 @@ def main():
       "setup_cmd": "./setup.sh",
       "hooks": {
         "guard": "espada_verif",
-        "enable": "RUSTFLAGS='--cfg espada_verif' via /verif/harness/.cargo/config.toml (the harness is the only crate built with it)",
+        "enable": "rustflags --cfg espada_verif in /verif/harness/.cargo/config.toml (applies to every crate of the harness build, including the path dependency /repo); the recorders that call the guarded accessors are behind the harness feature 'hook' and are built into harness/target-hook, so the main harness never depends on them",
         "baseline_off_cmd": "cd /repo && cargo test --workspace --no-fail-fast --offline",
-        "source_commits": [],
+        "source_commits": ["33b8beb"],
         "add_only": True,
       },
       "engines": [{"name": "tlc", "path": "spec/", "serves_properties": sorted(CLAIMED), "kind_free_text": "TLA+ specification checked with TLC; Rust conformance harness (harness/) records traces of /repo and replays TLC-generated cases"}],
